@@ -113,6 +113,44 @@ func runC04(c *Ctx) {
 			return w.CA.MakeCRL(o), nil
 		})
 	}
+	// the client certificate's own key, for every key usage the client certificate may carry (none at all,
+	// digitalSignature, digitalSignature+cRLSign), in a normal chain and as its own trust anchor (verified
+	// chain = [client certificate]): never entitled, whatever name or key identifier the CRL carries
+	kus := map[string]x509.KeyUsage{"no keyUsage": 0, "digitalSignature": x509.KeyUsageDigitalSignature, "digitalSignature+cRLSign": x509.KeyUsageDigitalSignature | x509.KeyUsageCRLSign}
+	for kuName, ku := range kus {
+		ku := ku
+		for _, alone := range []bool{false, true} {
+			alone := alone
+			for ai, aki := range akis {
+				aki := aki
+				if !alone && kuName == "digitalSignature" {
+					continue // covered above
+				}
+				if c.Tier != "thorough" && ai%2 == 1 && kuName != "no keyUsage" {
+					continue
+				}
+				mk := func(w *World) *Leaf {
+					l := w.CA.IssueLeaf(LeafOpts{CN: "probe", Serial: big.NewInt(8006), CDP: []string{w.Org.URL("/a")}, KU: &ku})
+					w.Certs["probe"] = l
+					w.CertSp["probe"] = CertSpec{LeafOnly: alone}
+					return l
+				}
+				sfx := map[bool]string{false: "", true: "-alone"}[alone]
+				where := map[bool]string{false: "in a chain", true: "as a chain of one"}[alone]
+				run(&c04Case{Name: fmt.Sprintf("client certificate (%s, %s) signs a CRL in its own name", kuName, where), Signer: "end-entity" + sfx, AKI: aki, Want: false}, func(w *World, _ *Leaf) ([]byte, []string) {
+					leaf := mk(w)
+					fake := &CA{Cert: leaf.Cert, Key: leaf.Key}
+					return fake.MakeCRL(opts(aki)), nil
+				})
+				run(&c04Case{Name: fmt.Sprintf("client certificate (%s, %s) signs a CRL in the CA's name", kuName, where), Signer: "end-entity" + sfx + "-as-ca", AKI: aki, Want: false}, func(w *World, _ *Leaf) ([]byte, []string) {
+					leaf := mk(w)
+					o := opts(aki)
+					o.SignKey = leaf.Key
+					return w.CA.MakeCRL(o), nil
+				})
+			}
+		}
+	}
 	// a CA in the chain whose key usage does not permit CRL signing
 	run(&c04Case{Name: "issuing CA without cRLSign key usage", Signer: "ca-no-crlsign", AKI: "keyid", Want: false}, func(w *World, _ *Leaf) ([]byte, []string) {
 		noKU := newCert(w.Root, CAOpts{Name: pkix.Name{CommonName: "no crlsign"}, KeyUsage: x509.KeyUsageCertSign})
@@ -134,6 +172,59 @@ func runC04(c *Ctx) {
 			o.Alg = &a
 			return ca.MakeCRL(o), nil
 		})
+	}
+	// declared algorithm identifiers next to the supported ones (as dotted strings and as arcs): an authentic
+	// CRL whose outer AlgorithmIdentifier is changed, and a CRL the CA signs correctly but declares (inner and
+	// outer) under the neighbouring identifier
+	for i := range SigAlgs {
+		a := SigAlgs[i]
+		last := a.OID[len(a.OID)-1]
+		var near []asn1.ObjectIdentifier
+		with := func(arcs ...int) asn1.ObjectIdentifier {
+			return append(append(asn1.ObjectIdentifier{}, a.OID[:len(a.OID)-1]...), arcs...)
+		}
+		for k := 0; k < 10; k++ {
+			near = append(near, with(last*10+k))
+		}
+		near = append(near, with(), with(last, 0), with(last, 1), with(last^0x20), with(last+1), with(last+16))
+		if last >= 10 {
+			near = append(near, with(last/10))
+		}
+		for _, oid := range near {
+			oid := oid
+			supported := false
+			for _, b := range SigAlgs {
+				if b.OID.Equal(oid) {
+					supported = true
+				}
+			}
+			if supported && c.Tier != "thorough" {
+				continue
+			}
+			for _, both := range []bool{false, true} {
+				both := both
+				name := fmt.Sprintf("%s declared as %s (outer only)", a.Name, oid)
+				if both {
+					name = fmt.Sprintf("%s declared as %s (inner and outer, signed by the CA)", a.Name, oid)
+				}
+				run(&c04Case{Name: name, Signer: "issuer", AKI: "keyid", Alg: "near-" + a.Name, Want: false}, func(w *World, _ *Leaf) ([]byte, []string) {
+					ca := newCert(w.Root, CAOpts{Name: pkix.Name{CommonName: "alg CA " + a.Name}, RSA: a.RSA})
+					w.CA = ca
+					w.Certs["probe"] = ca.IssueLeaf(LeafOpts{CN: "probe", Serial: big.NewInt(8005), CDP: []string{w.Org.URL("/a")}})
+					w.Certs["listed"] = ca.IssueLeaf(LeafOpts{CN: "listed", Serial: big.NewInt(4242), CDP: []string{w.Org.URL("/a")}})
+					o := opts("keyid")
+					o.Alg = &a
+					d := ca.MakeDoc(o)
+					fakeAlg := SigAlg{OID: oid, RSA: a.RSA}.AlgID()
+					d.OuterAlg = fakeAlg
+					if both {
+						d.InnerAlg = fakeAlg
+						d.SigBits = signDigest(ca.Key, a.Hash, d.TBS())
+					}
+					return d.DER(), nil
+				})
+			}
+		}
 	}
 	run(&c04Case{Name: "RSA-PSS (unsupported)", Signer: "issuer", AKI: "keyid", Alg: "rsassa-pss", Want: false}, func(w *World, _ *Leaf) ([]byte, []string) {
 		ca := newCert(w.Root, CAOpts{Name: pkix.Name{CommonName: "pss CA"}, RSA: true})
@@ -206,7 +297,7 @@ func runC04(c *Ctx) {
 				c.Fail("", cs.Name+": CRL in force but the listed certificate is "+cs.Listed, cs)
 			}
 			if cs.Alg == "" {
-				items = append(items, fmt.Sprintf("mk_ch %d %s %s %s", i, map[string]string{"issuer": "KIssuer", "end-entity": "KEndEntity", "end-entity-as-ca": "KEndEntityKey", "unrelated": "KUnrelatedKey", "sibling": "KSibling", "trusted": "KTrusted", "stranger": "KStranger", "root-key": "KRootKey", "ca-no-crlsign": "KNoCrlSign"}[cs.Signer],
+				items = append(items, fmt.Sprintf("mk_ch %d %s %s %s", i, map[string]string{"issuer": "KIssuer", "end-entity": "KEndEntity", "end-entity-as-ca": "KEndEntityKey", "unrelated": "KUnrelatedKey", "sibling": "KSibling", "trusted": "KTrusted", "stranger": "KStranger", "root-key": "KRootKey", "ca-no-crlsign": "KNoCrlSign", "end-entity-alone": "KEndEntity", "end-entity-alone-as-ca": "KEndEntityKey"}[cs.Signer],
 					map[string]string{"keyid": "AkiKeyId", "absent": "AkiAbsent", "issuerserial": "AkiIssuerSerial", "both": "AkiBoth"}[cs.AKI], coqBool(cs.InForce)))
 			}
 		}
@@ -217,5 +308,5 @@ func runC04(c *Ctx) {
 	}
 	c.WriteCoqSharded("cases_C04", "From Verif Require Import Base Chains RunChains.\n", "chcase", items, "chains_mismatches", 100)
 	c.Rep.Cases = len(cases)
-	c.Rep.Rule = "real CRLs under signature_validation_mode verify + crl_cdp_strict: signer {issuer CA, the client's own certificate (own name / CA's name), unrelated key, sibling CA with the same name, configured trusted signer, unconfigured stranger, root key, CA without cRLSign} x AKI {keyId, absent, issuer+serial, both}; all ten supported algorithms, RSA-PSS and Ed25519; every 4th (thorough: every) byte of a valid CRL with bit 0 and bit 7 flipped; observable: does the CRL come into force (an unlisted certificate is accepted under strict) and does it revoke the listed one"
+	c.Rep.Rule = "real CRLs under signature_validation_mode verify + crl_cdp_strict: signer {issuer CA, the client's own certificate (own name / CA's name), unrelated key, sibling CA with the same name, configured trusted signer, unconfigured stranger, root key, CA without cRLSign} x AKI {keyId, absent, issuer+serial, both}; the client certificate's key with key usage {absent, digitalSignature, digitalSignature+cRLSign} in a normal chain and as a directly trusted chain of one, signing in its own or the CA's name; all ten supported algorithms, RSA-PSS and Ed25519; ~17 neighbouring algorithm identifiers per supported algorithm (last arc with a digit appended, dropped, extended by an arc, bit-flipped, +1, +16, decimal prefix) declared outer-only on an authentic CRL and inner+outer on a CRL the CA signs; every 4th (thorough: every) byte of a valid CRL with bit 0 and bit 7 flipped; observable: does the CRL come into force (an unlisted certificate is accepted under strict) and does it revoke the listed one"
 }
